@@ -365,3 +365,91 @@ Proof.
   assert (R' : c_resume (w_cfg (step w a)) = LongRunning) by now rewrite step_cfg.
   rewrite (longrunning_state _ S' R'). cbn [negb andb]. apply IH; auto. now apply step_inv.
 Qed.
+
+(* ------------------------------------------------------------------ the C06 walk monitor: MetricsUnavailable is justified by the
+   DB as of the Begin of the reporting reconcile *)
+From KV Require Import Proofs.WorldMu.
+
+Lemma begin_trials w c key resp dberr : w_trials (step w (Begin c key resp dberr)) = w_trials w.
+Proof.
+  cbn [step]. destruct (pending_of w c); [|reflexivity]. destruct c; [|destruct (plan_sug w resp)|]; reflexivity.
+Qed.
+
+Lemma snap_next_project w a snap :
+  match a with
+  | Begin CTrial k _ _ => match pj_pending (project w) with (_, _, true) => snap | _ => Some (k, pj_db (project w)) end
+  | _ => snap end = snap_next w a snap.
+Proof.
+  unfold snap_next. destruct a; try reflexivity. destruct c; try reflexivity.
+  unfold project. cbn [pj_pending pj_db]. destruct (p_trial w); reflexivity.
+Qed.
+
+Lemma has_cond_snoc_es cs : has_cond (cs ++ [es_cond]) TMetricsUnavailable = has_cond cs TMetricsUnavailable.
+Proof. unfold has_cond. rewrite get_app. destruct (get_cond cs TMetricsUnavailable); reflexivity. Qed.
+
+Theorem mu_step_model snap w a :
+  Inv w -> MuInv snap w -> is_teardown a = false ->
+  forallb (fun t =>
+    match find_pt (pt_name t) (project w) with
+    | Some t0 =>
+        if pt_is t TMetricsUnavailable && negb (pt_is t0 TMetricsUnavailable) then
+          match snap_next w a snap with
+          | Some (k, db) => Nat.eqb k (pt_name t) && match db_get (pt_name t) db with Some (Some _) => false | _ => true end
+          | None => false
+          end
+        else true
+    | None => negb (pt_is t TMetricsUnavailable)
+    end) (pj_trials (project (step w a))) = true.
+Proof.
+  intros Iv [T K] NT. pose proof Iv as [I _].
+  apply forallb_forall. intros pt Hpt. unfold project in Hpt. cbn [pj_trials] in Hpt.
+  apply in_map_iff in Hpt as (t'&<-&It'). fold (ptr t'). rewrite find_pt_project. cbn [pt_name ptr].
+  destruct (tgrow_in _ _ _ _ (step_trials w a Iv NT) It') as [(t&It&E)|(n&->)].
+  2:{ (* a new trial carries no condition *)
+      destruct (find_trial _ _); cbn [option_map]; reflexivity. }
+  assert (Same : t_name t' = t_name t -> has_cond (t_conds t') TMetricsUnavailable = has_cond (t_conds t) TMetricsUnavailable ->
+          match option_map ptr (find_trial (t_name t') (w_trials w)) with
+          | Some t0 => if pt_is (ptr t') TMetricsUnavailable && negb (pt_is t0 TMetricsUnavailable)
+                       then match snap_next w a snap with
+                            | Some (k, db) => Nat.eqb k (t_name t') && match db_get (t_name t') db with Some (Some _) => false | _ => true end
+                            | None => false end
+                       else true
+          | None => negb (pt_is (ptr t') TMetricsUnavailable) end = true).
+  { intros N C. rewrite N, (find_trial_in _ _ t (i_nodup _ I) It eq_refl). cbn [option_map]. unfold pt_is, ptr. cbn [pt_conds].
+    rewrite C. now destruct (has_cond (t_conds t) TMetricsUnavailable). }
+  destruct E as [t|t t' N Cc Ob Ct|t t' c cs o ct onf Ip N Cc Ob|t t' Nc Cr J N Cc Ob].
+  - apply Same; reflexivity.
+  - apply Same; [exact N|now rewrite Cc].
+  - (* a pending status write lands: the step is not a Begin, so the snapshot is the one of the invariant *)
+    rewrite N, (find_trial_in _ _ t (i_nodup _ I) It eq_refl). cbn [option_map]. unfold pt_is, ptr. cbn [pt_conds]. rewrite Cc.
+    destruct (has_cond cs TMetricsUnavailable) eqn:M; [|reflexivity].
+    destruct (has_cond (t_conds t) TMetricsUnavailable) eqn:M0; [reflexivity|]. cbn [negb andb].
+    pose proof (T c) as F. rewrite Forall_forall in F. specialize (F _ Ip). unfold muw_ok in F. cbn [fst] in F.
+    destruct (F M t (find_trial_in _ _ t (i_nodup _ I) It eq_refl) eq_refl) as [L|(db&Es&Nd)]; [congruence|].
+    assert (Sn : snap_next w a snap = snap).
+    { unfold snap_next. destruct a; try reflexivity. destruct c0; try reflexivity.
+      (* a Begin leaves the stored trials alone: the stored trial would not have changed *)
+      exfalso. pose proof (begin_trials w CTrial key resp dberr) as Bt.
+      pose proof (i_nodup _ I) as ND.
+      assert (It2 : In t' (w_trials w)) by (rewrite <- Bt; exact It').
+      assert (t' = t).
+      { pose proof (find_trial_in _ _ t ND It eq_refl) as F1. pose proof (find_trial_in _ _ t' ND It2 eq_refl) as F2.
+        rewrite N in F2. rewrite F1 in F2. now inversion F2. }
+      subst t'. congruence. }
+    rewrite Sn, Es. rewrite Nat.eqb_refl. cbn [andb]. unfold nodbobj in Nd. exact Nd.
+  - apply Same; [exact N|]. rewrite Cc. apply has_cond_snoc_es.
+Qed.
+
+Theorem mu_walk_model snap w acts :
+  Inv w -> MuInv snap w -> no_teardown acts -> mu_walk snap (project w) (msteps w acts) = true.
+Proof.
+  revert snap w. induction acts as [|a l IH]; intros snap w I M NT; [reflexivity|].
+  apply no_teardown_cons in NT as [Na NT]. cbn [msteps mu_walk]. rewrite snap_next_project.
+  apply andb_true_iff. split; [now apply mu_step_model|].
+  apply IH; [now apply step_inv|now apply step_mu|exact NT].
+Qed.
+
+(* the monitor, as it is evaluated on case files, on a run of the model from the initial state *)
+Theorem mu_monitor_sound c acts :
+  valid_cfg c -> no_teardown acts -> mu_walk None (project (init c)) (msteps (init c) acts) = true.
+Proof. intros V NT. apply mu_walk_model; [now apply Inv_init|apply MuInv_init|exact NT]. Qed.
